@@ -144,6 +144,9 @@ func ctPushRequestCopyMerge(pr, other *PushRequest) {
 	verif.Ensures("reason-counts-add", !both || verif.Forall(func(k TriggerReason) bool {
 		return m.Reason[k] == verif.Old(func() int { return pr.Reason[k] })+verif.Old(func() int { return other.Reason[k] })
 	}))
+	verif.Ensures("reason-keys-union", !both || verif.Forall(func(k TriggerReason) bool {
+		return hasKey(m.Reason, k) == (verif.Old(func() bool { return hasKey(pr.Reason, k) }) || verif.Old(func() bool { return hasKey(other.Reason, k) }))
+	}))
 	// the result shares no set with its inputs (so that nobody who later merges into it can alter them)
 	verif.Ensures("result-shares-no-set", !both || ((m.ConfigsUpdated == nil || verif.Fresh(m.ConfigsUpdated)) &&
 		(m.AddressesUpdated == nil || verif.Fresh(m.AddressesUpdated)) &&
